@@ -187,6 +187,13 @@ class C02(Property):
         entry, alpha = d.get("entry"), d["alpha"]
         if entry == "iter" and not im._is_animated:
             entry = "format"
+        if entry in ("format", "iter") and isinstance(alpha, float):
+            # a format specifier can only spell thresholds in [0, 1) in positional notation
+            if not 0.0 <= alpha < 1.0:
+                alpha = math.nextafter(1.0, 0.0)
+            txt = format(alpha, ".25f")[1:]
+            if float("0" + txt) != alpha:
+                entry = None  # not spellable exactly: use the direct entry
         if d.get("_frame") and entry != "iter":
             im.seek(d["_frame"])
         if not entry:
@@ -195,7 +202,7 @@ class C02(Property):
             out, alpha = str(im), DEFAULT_ALPHA
         else:
             spec = "1.1" + ("#" if alpha is None else "##" if alpha == "#" else "#" + alpha[1:] if isinstance(alpha, str)
-                            else "#" + repr(float(alpha))[1:])
+                            else "#" + format(alpha, ".25f")[1:])
             if entry == "format":
                 out = format(im, spec)
             else:
